@@ -66,13 +66,18 @@ ArgTuples == {<<a>> : a \in Exemplars} \cup {<<a, b>> : a \in Exemplars, b \in E
              \cup {<<a, b, d>> : a \in Exemplars, b \in Exemplars, d \in Exemplars}
 
 \* ------------------------------------------------------------------ cases
+(* A case is a text (a call, or the two sides of an identity instance); it carries no scope.  out holds what the
+   specification allows under EACH scope -- the Formula table, the Matrix table and the overriding scope -- and the
+   adapter evaluates the same text under all of them, in the orders enumerated by part "order", within one process. *)
 NoNz(n) == Tup([i \in 1..n |-> FALSE], n)
 CallTerm(f, args, nz) == Fn(f, Tup([i \in 1..Len(args) |-> IF nz[i] THEN NegZeroT ELSE ArrayT(args[i])], Len(args)))
-CallOut(tb, f, args, nz) == [toks |-> Spelling(CallTerm(f, args, nz)), o |-> Outcome(tb, f, args)]
+Per(f, args) == [formula |-> Outcome("formula", f, args), matrix |-> Outcome("matrix", f, args),
+                 override |-> Outcome("override", f, args)]
+CallOut(f, args, nz) == [toks |-> Spelling(CallTerm(f, args, nz)), o |-> Per(f, args)]
 
 UnaryFns == ScalarFns \cup {"re", "im", "conj"}
-UnaryCases(tb, f) == [kind : {"unary"}, tb : {tb}, f : {f}, args : {<<Sc(z)>> : z \in Pts}, nz : {<<FALSE>>}]
-                     \cup [kind : {"unary"}, tb : {tb}, f : {f}, args : {<<Sc(GZ)>>}, nz : {<<TRUE>>}]
+UnaryCases(f) == [kind : {"unary"}, f : {f}, args : {<<Sc(z)>> : z \in Pts}, nz : {<<FALSE>>}]
+                 \cup [kind : {"unary"}, f : {f}, args : {<<Sc(GZ)>>}, nz : {<<TRUE>>}]
 RealPairs == {<<Sc(x), Sc(y)>> : x \in Reals2, y \in Reals2}
 MixedPairs == {<<Sc(x), Sc(y)>> : x \in PairPts, y \in {GQ(1, 2, 1, 1), G0(0, 1), G0(2, 0), G0(0, 0)}}
 AxM == QS({<<-1, 1>>, <<0, 1>>, <<1, 2>>, <<2, 1>>, <<-3, 2>>})
@@ -80,115 +85,152 @@ Triples == {<<Sc(GR(x)), Sc(GR(y)), Sc(GR(w))>> : x \in AxM, y \in AxM, w \in Ax
 Quads == {<<Sc(GR(x)), Sc(GR(y)), Sc(GR(w)), Sc(GR(v))>> : x \in {Q(-1, 1), Q(2, 1), Q(1, 2)}, y \in {Q(-1, 1), Q(2, 1), Q(1, 2)},
                                                            w \in {Q(-1, 1), Q(2, 1), Q(1, 2)}, v \in {Q(-1, 1), Q(2, 1), Q(1, 2)}}
 ZeroFlags(args) == {nz \in [1..Len(args) -> BOOLEAN] : \A i \in 1..Len(args) : nz[i] => GIs0(args[i].e[1])}
-\* (families only split the work between TLC workers: one seed per (table, function, family))
+\* (families only split the work between TLC workers: one seed per (function, family))
 MultiFams == {"realpairs", "mixed", "triples", "quads", "allpairs"}
 MultiArgs(f, fam) == CASE fam = "realpairs" -> IF f = "kronecker" THEN {} ELSE RealPairs
                        [] fam = "mixed" -> IF f = "kronecker" THEN {} ELSE MixedPairs
                        [] fam = "triples" -> IF f \in {"min", "max"} THEN Triples ELSE {}
                        [] fam = "quads" -> IF f \in {"min", "max"} THEN Quads ELSE {}
                        [] fam = "allpairs" -> IF f = "kronecker" THEN {<<Sc(x), Sc(y)>> : x \in PairPts, y \in PairPts} ELSE {}
-MultiCases(tb, f, fam) == UNION {[kind : {"multi"}, tb : {tb}, f : {f}, args : {args},
-                                  nz : {Tup(nz, Len(args)) : nz \in (IF f = "arctan2" THEN ZeroFlags(args) ELSE {NoNz(Len(args))})}]
-                                 : args \in MultiArgs(f, fam)}
+MultiCases(f, fam) == UNION {[kind : {"multi"}, f : {f}, args : {args},
+                              nz : {Tup(nz, Len(args)) : nz \in (IF f = "arctan2" THEN ZeroFlags(args) ELSE {NoNz(Len(args))})}]
+                             : args \in MultiArgs(f, fam)}
 MatFams == {"scalars", "vec2", "vec3", "mat22", "mat33", "mat23", "mat32"}
 MatFam(fam) == CASE fam = "scalars" -> ScalarsM [] fam = "vec2" -> Vec2s [] fam = "vec3" -> Vec3s [] fam = "mat22" -> Mat22s
                  [] fam = "mat33" -> Mat33s [] fam = "mat23" -> Mat23s [] fam = "mat32" -> Mat32s
-MatrixCases(tb, f, fam) == IF f = "cross"
-                           THEN [kind : {"matrix"}, tb : {tb}, f : {f}, args : {<<u, v>> : u \in MatFam(fam), v \in Vec3s}, nz : {NoNz(2)}]
-                           ELSE [kind : {"matrix"}, tb : {tb}, f : {f}, args : {<<a>> : a \in MatFam(fam)}, nz : {NoNz(1)}]
-SigCases(tb, f) == UNION {[kind : {"sig"}, tb : {tb}, f : {f}, args : {args}, nz : {NoNz(Len(args))}] : args \in ArgTuples}
+MatrixCases(f, fam) == IF f = "cross"
+                       THEN [kind : {"matrix"}, f : {f}, args : {<<u, v>> : u \in MatFam(fam), v \in Vec3s}, nz : {NoNz(2)}]
+                       ELSE [kind : {"matrix"}, f : {f}, args : {<<a>> : a \in MatFam(fam)}, nz : {NoNz(1)}]
+SigCases(f) == UNION {[kind : {"sig"}, f : {f}, args : {args}, nz : {NoNz(Len(args))}] : args \in ArgTuples}
 
 IdentPts(d) == IF d.nv = 0 THEN {<<GZ, GZ>>}
                ELSE IF d.nv = 1 THEN {<<z, GZ>> : z \in {p \in (IF d.g = "int6" THEN IntPts ELSE Pts) : Guard(d.g, p, GZ)}}
                ELSE {pr \in {<<z, w>> : z \in PairPts, w \in PairPts} : Guard(d.g, pr[1], pr[2])}
-IdentCases(tb, k) == [kind : {"ident"}, tb : {tb}, k : {k}, id : {Identities[k].id}, pt : IdentPts(Identities[k])]
-IdentOut(cc) == LET inst == Instance(cc.k, cc.pt[1], cc.pt[2], cc.tb) IN
-                [ltoks |-> Spelling(inst.l), rtoks |-> IF inst.rel = "eq" THEN Spelling(inst.r) ELSE <<>>,
-                 rel |-> inst.rel, sl |-> inst.sl, sr |-> inst.sr, exact |-> inst.exact]
+IdentCases(k) == [kind : {"ident"}, k : {k}, id : {Identities[k].id}, pt : IdentPts(Identities[k])]
+\* what is allowed for one scope: statuses of the two sides, whether the relation is claimed, exact values of the sides
+PerScope(inst) == [sl |-> inst.sl, sr |-> inst.sr, holds |-> inst.holds, lx |-> inst.lx, rx |-> inst.rx]
+UsesAbs(k) == "abs" \in FuncsIn(Identities[k].l) \cup FuncsIn(Identities[k].r)
+IdentOut(cc) == LET fi == Instance(cc.k, cc.pt[1], cc.pt[2], "formula")
+                    mi == IF UsesAbs(cc.k) THEN Instance(cc.k, cc.pt[1], cc.pt[2], "matrix") ELSE fi   \* (LawMatrixSame)
+                    oi == Instance(cc.k, cc.pt[1], cc.pt[2], "override") IN
+                [ltoks |-> Spelling(fi.l), rtoks |-> IF fi.rel = "eq" THEN Spelling(fi.r) ELSE <<>>, rel |-> fi.rel,
+                 per |-> [formula |-> PerScope(fi), matrix |-> PerScope(mi), override |-> PerScope(oi)]]
 
-ConstCases == [kind : {"const"}, tb : Tables, name : {"i", "j", "e", "pi"}]
+ConstCases == [kind : {"const"}, name : {"i", "j", "e", "pi"}]
+ConstOutcome(nm) == IF nm \in DOMAIN ConstExact THEN XS(ConstExact[nm])
+                    ELSE [k |-> "between", lo |-> ConstBounds[nm][1], hi |-> ConstBounds[nm][2], nano |-> ConstNano[nm]]
+
+\* ------------------------------------------------------------------ histories (part "order")
+(* one text evaluated under a sequence of scopes.  The texts are calls whose outcome differs between scopes in every
+   possible way (value / other value, value / error, error / value).  Policy "text" (part "order_flaw") is the
+   vacuity guard: a memo keyed by the text alone must be refuted by TLC. *)
+RECURSIVE SeqsOver(_, _)
+SeqsOver(S, n) == IF n = 0 THEN {<<>>} ELSE {Append(h, x) : h \in SeqsOver(S, n - 1), x \in S}
+Histories == UNION {SeqsOver(Scopes, n) : n \in 1..(IF Quick THEN 3 ELSE 4)}
+OrderTexts == <<[f |-> "abs", args |-> <<Vec(<<G0(3, 0), G0(4, 0)>>)>>],
+                [f |-> "sin", args |-> <<Sc(G0(1, 0))>>],
+                [f |-> "arctan2", args |-> <<Sc(G0(1, 0)), Sc(G0(2, 0))>>],
+                [f |-> "norm", args |-> <<Vec(<<G0(3, 0), G0(4, 0)>>)>>],
+                [f |-> "min", args |-> <<Sc(G0(1, 0))>>],
+                [f |-> "floor", args |-> <<Sc(GQ(5, 2, 0, 1))>>],
+                [f |-> "sinc", args |-> <<Sc(G0(1, 0))>>]>>
+OrderCases == [kind : {"order"}, t : 1..Len(OrderTexts), h : Histories]
+OrderOut(cc) == LET x == OrderTexts[cc.t] IN
+                [toks |-> Spelling(CallTerm(x.f, x.args, NoNz(Len(x.args)))), run |-> RefRun(cc.h, Per(x.f, x.args))]
 
 \* ------------------------------------------------------------------ two-level enumeration
-TablesOf(p) == IF Quick /\ p \in {"multi", "ident"} THEN {"formula"} ELSE Tables
-Seeds == CASE Part = "sig" -> {[kind |-> "seed", tb |-> tb, f |-> f] : tb \in Tables, f \in SigNames}
-           [] Part = "unary" -> {[kind |-> "seed", tb |-> tb, f |-> f] : tb \in Tables, f \in UnaryFns}
-           [] Part = "multi" -> {[kind |-> "seed", tb |-> tb, f |-> f, fam |-> fam] :
-                                    tb \in TablesOf("multi"), f \in {"arctan2", "kronecker", "min", "max"}, fam \in MultiFams}
-           [] Part = "matrix" -> {[kind |-> "seed", tb |-> "matrix", f |-> f, fam |-> fam] : f \in MatFns, fam \in MatFams}
-                                 \cup {[kind |-> "seed", tb |-> "matrix", f |-> "cross", fam |-> fam] : fam \in {"vec3", "vec2", "scalars"}}
-                                 \cup {[kind |-> "seed", tb |-> "formula", f |-> f, fam |-> fam] :
-                                          f \in {"re", "im", "conj", "abs", "det"}, fam \in MatFams}
-           [] Part = "tmpl" -> {[kind |-> "tmpl", k |-> k] : k \in 1..Len(Identities)}
-           [] Part = "ident" -> {[kind |-> "seed", tb |-> tb, k |-> k] : tb \in TablesOf("ident"), k \in 1..Len(Identities)}
-                                \cup {[kind |-> "seedconst"]}
-\* identity templates (holes Z, W left in place) for the random driver of the adapter
-TmplOut(k) == LET d == Identities[k] IN
-              [id |-> d.id, ltoks |-> Spelling(d.l), rtoks |-> Spelling(d.r), rel |-> d.rel, nv |-> d.nv, g |-> d.g]
+Seeds == CASE Part = "sig" -> {[kind |-> "seed", f |-> f] : f \in SigNames}
+           [] Part = "unary" -> {[kind |-> "seed", f |-> f] : f \in UnaryFns}
+           [] Part = "multi" -> {[kind |-> "seed", f |-> f, fam |-> fam] : f \in {"arctan2", "kronecker", "min", "max"}, fam \in MultiFams}
+           [] Part = "matrix" -> {[kind |-> "seed", f |-> f, fam |-> fam] : f \in MatFns, fam \in MatFams}
+                                 \cup {[kind |-> "seed", f |-> "cross", fam |-> fam] : fam \in {"vec3", "vec2", "scalars"}}
+           [] Part = "tmpl" -> {[kind |-> "tmpl", k |-> k] : k \in 1..Len(Identities)} \cup {[kind |-> "markers", k |-> 0]}
+           [] Part = "ident" -> {[kind |-> "seed", k |-> k] : k \in 1..Len(Identities)} \cup {[kind |-> "seedconst"]}
+           [] Part \in {"order", "order_flaw"} -> {[kind |-> "seedorder", t |-> t] : t \in 1..Len(OrderTexts)}
+\* identity templates (holes Z, W left in place) and the markers of the overriding scope, for the drivers of the adapter
+TmplOut(k) == IF k = 0 THEN [markers |-> Markers]
+              ELSE LET d == Identities[k] IN
+                   [id |-> d.id, ltoks |-> Spelling(d.l), rtoks |-> Spelling(d.r), rel |-> d.rel, nv |-> d.nv, g |-> d.g]
 Init == c \in Seeds /\ out = (IF Part = "tmpl" THEN TmplOut(c.k) ELSE [k |-> "seed"])
 Next == \/ /\ c.kind = "seed" /\ Part = "sig"
-           /\ c' \in SigCases(c.tb, c.f) /\ out' = CallOut(c'.tb, c'.f, c'.args, c'.nz)
+           /\ c' \in SigCases(c.f) /\ out' = CallOut(c'.f, c'.args, c'.nz)
         \/ /\ c.kind = "seed" /\ Part = "unary"
-           /\ c' \in UnaryCases(c.tb, c.f) /\ out' = CallOut(c'.tb, c'.f, c'.args, c'.nz)
+           /\ c' \in UnaryCases(c.f) /\ out' = CallOut(c'.f, c'.args, c'.nz)
         \/ /\ c.kind = "seed" /\ Part = "multi"
-           /\ c' \in MultiCases(c.tb, c.f, c.fam) /\ out' = CallOut(c'.tb, c'.f, c'.args, c'.nz)
+           /\ c' \in MultiCases(c.f, c.fam) /\ out' = CallOut(c'.f, c'.args, c'.nz)
         \/ /\ c.kind = "seed" /\ Part = "matrix"
-           /\ c' \in MatrixCases(c.tb, c.f, c.fam) /\ out' = CallOut(c'.tb, c'.f, c'.args, c'.nz)
+           /\ c' \in MatrixCases(c.f, c.fam) /\ out' = CallOut(c'.f, c'.args, c'.nz)
         \/ /\ c.kind = "seed" /\ Part = "ident"
-           /\ c' \in IdentCases(c.tb, c.k) /\ out' = IdentOut(c')
+           /\ c' \in IdentCases(c.k) /\ out' = IdentOut(c')
         \/ /\ c.kind = "seedconst"
            /\ c' \in ConstCases
-           /\ out' = [toks |-> <<c'.name>>,
-                      o |-> IF c'.name \in DOMAIN ConstExact THEN XS(ConstExact[c'.name])
-                            ELSE [k |-> "between", lo |-> ConstBounds[c'.name][1], hi |-> ConstBounds[c'.name][2],
-                                  nano |-> ConstNano[c'.name]]]
+           /\ out' = [toks |-> <<c'.name>>, o |-> [s \in Scopes |-> ConstOutcome(c'.name)]]
+        \/ /\ c.kind = "seedorder"
+           /\ c' \in {x \in OrderCases : x.t = c.t} /\ out' = OrderOut(c')
 IsCall == c.kind \in {"sig", "unary", "multi", "matrix"}
 
 \* ------------------------------------------------------------------ laws, one INVARIANT each
 Z1 == c.args[1].e[1]
-LawCall == IsCall => /\ LawOutcomeTotal(c.tb, c.f, c.args)
+LawCall == IsCall => /\ \A tb \in Scopes : LawOutcomeTotal(tb, c.f, c.args)
                      /\ LawRenderParses(CallTerm(c.f, c.args, c.nz))
                      /\ LawOnlyNaturalLiterals(CallTerm(c.f, c.args, c.nz))
 \* wrong counts and shapes never get a value; right ones never get a count / shape error
-LawSigPrecedence == (c.kind = "sig" /\ c.f \in DOMAIN SigOf(c.tb)) =>
-   LET s == SigOf(c.tb)[c.f]
+LawSigPrecedence == c.kind = "sig" => \A tb \in Tables : (c.f \in DOMAIN SigOf(tb)) =>
+   LET s == SigOf(tb)[c.f]
        okc == CountOK(s, Len(c.args))
        oks == \A i \in 1..Len(c.args) : ShapeOK(s.p, c.args[i]) IN
-   /\ (~okc \/ ~oks) => Allowed(out.o) = "err"
-   /\ (okc /\ oks) => ~(out.o.k = "err" /\ out.o.why \in {"argcount", "argshape", "undefined"})
+   /\ (~okc \/ ~oks) => Allowed(out.o[tb]) = "err"
+   /\ (okc /\ oks) => ~(out.o[tb].k = "err" /\ out.o[tb].why \in {"argcount", "argshape", "undefined"})
 LawUnary == c.kind = "unary" =>
    /\ LawDomain(c.f, Z1) /\ LawReciprocalDomain(c.f, Z1)
-   /\ LawGaussTerm(Z1, c.tb)
+   /\ \A tb \in Scopes : LawGaussTerm(Z1, tb)
    /\ IsRe(Z1) => (LawRanges(c.f, Z1[1]) /\ LawFloorCeil(Z1[1]))
    /\ SmallG(Z1) => LawConj(Z1)
-   /\ WellSorted(CallTerm(c.f, c.args, c.nz), c.tb)
+   /\ \A tb \in Scopes : WellSorted(CallTerm(c.f, c.args, c.nz), tb)
    \* a value is required exactly inside the domain
-   /\ c.f \in ScalarFns => ((Allowed(out.o) = "val") <=> (Dom(c.f, Z1) = "in"))
-   /\ c.f \in ScalarFns => ((Allowed(out.o) = "err") <=> (Dom(c.f, Z1) \in {"pole", "offdomain", "overflow"}))
+   /\ c.f \in ScalarFns => ((Allowed(out.o.formula) = "val") <=> (Dom(c.f, Z1) = "in"))
+   /\ c.f \in ScalarFns => ((Allowed(out.o.formula) = "err") <=> (Dom(c.f, Z1) \in {"pole", "offdomain", "overflow"}))
 LawMulti == c.kind = "multi" =>
-   LET x == c.args[1].e[1]  y == c.args[2].e[1] IN
+   LET x == c.args[1].e[1]  y == c.args[2].e[1]  o == out.o.formula IN
    /\ (c.f = "arctan2" /\ IsRe(x) /\ IsRe(y)) => LawAngle(x[1], y[1])
-   /\ (c.f = "arctan2") => ((out.o.k = "err") <=> (~IsRe(x) \/ ~IsRe(y) \/ (GIs0(x) /\ GIs0(y))))
+   /\ (c.f = "arctan2") => ((o.k = "err") <=> (~IsRe(x) \/ ~IsRe(y) \/ (GIs0(x) /\ GIs0(y))))
    /\ (c.f = "kronecker") => (LawKronecker(x, y) /\ LawAbsMultiplicative(x, y))
-   /\ (c.f \in {"min", "max"} /\ out.o.k = "exact") =>
+   /\ (c.f \in {"min", "max"} /\ o.k = "exact") =>
         LawMinMax(Tup([i \in 1..Len(c.args) |-> c.args[i].e[1][1]], Len(c.args)))
    \* min and max are symmetric in their arguments
-   /\ (c.f \in {"min", "max"} /\ Len(c.args) = 2) => Outcome(c.tb, c.f, <<c.args[2], c.args[1]>>) = out.o
+   /\ (c.f \in {"min", "max"} /\ Len(c.args) = 2) => Outcome("formula", c.f, <<c.args[2], c.args[1]>>) = o
 LawMatrix == c.kind = "matrix" =>
+   LET o == out.o.matrix IN
    /\ (c.f # "cross" /\ A!IsMatrix(c.args[1])) => (LawTranspose(c.args[1]) /\ LawSquare(c.args[1]))
    /\ (c.f = "cross" /\ c.args[1].sh = <<3>> /\ c.args[2].sh = <<3>>) => LawCross(c.args[1], c.args[2])
-   /\ (c.f = "cross") => ((out.o.k = "exact") <=> (c.args[1].sh = <<3>> /\ c.args[2].sh = <<3>>))
-   \* adj and ctrans are the same function; trans twice is the identity on outcomes
-   /\ (c.f = "adj") => Outcome(c.tb, "ctrans", c.args) = out.o
-   /\ (c.f = "norm" /\ out.o.k = "sqrtof") => out.o.q[1] >= 0
-   /\ (c.f \in {"det", "trace"} /\ c.tb = "matrix") => ((out.o.k = "exact") <=> A!IsSquare(c.args[1]))
-   /\ (c.tb = "formula" /\ c.f \notin DOMAIN FormulaSig) => out.o = MustErr("undefined")
-LawIdent == c.kind = "ident" => LawInstance(Instance(c.k, c.pt[1], c.pt[2], c.tb), c.tb)
+   /\ (c.f = "cross") => ((o.k = "exact") <=> (c.args[1].sh = <<3>> /\ c.args[2].sh = <<3>>))
+   \* adj and ctrans are the same function
+   /\ (c.f = "adj") => Outcome("matrix", "ctrans", c.args) = o
+   /\ (c.f = "norm" /\ o.k = "sqrtof") => o.q[1] >= 0
+   /\ (c.f \in {"det", "trace"}) => ((o.k = "exact") <=> A!IsSquare(c.args[1]))
+   /\ (c.f \notin DOMAIN FormulaSig) => out.o.formula = MustErr("undefined")
+LawIdent == c.kind = "ident" => \A tb \in (IF Quick THEN {"formula", "override"} ELSE Scopes) :
+                                   LawInstance(Instance(c.k, c.pt[1], c.pt[2], tb), tb)
+\* an identity that does not mention abs reads the same in the two tables (IdentOut relies on it); thorough tier only
+LawMatrixSame == (c.kind = "ident" /\ ~Quick /\ ~UsesAbs(c.k)) =>
+                    PerScope(Instance(c.k, c.pt[1], c.pt[2], "matrix")) = out.per.formula
+\* under the overriding scope every side has a value, and wherever it is exactly computable it is made of markers only
+LawOverride == /\ IsCall => (out.o.override = IF c.f \in DOMAIN MatrixSig THEN XS(GI(Marker(c.f))) ELSE MustErr("undefined"))
+               /\ c.kind = "ident" => (out.per.override.sl = "val" /\ out.per.override.sr = "val" /\ ~out.per.override.holds)
 \* statuses: an identity must raise on the left exactly when some function is applied at one of its poles (or beyond
 \* the floats); spot-checked for the round trips, where the only function applied to the point is the inverse
 LawRoundTripStatus == (c.kind = "ident" /\ c.k \in {IdIndex("rt_" \o InvSeq[j]) : j \in 1..12}) =>
    LET f == CHOOSE g \in Inverses : "rt_" \o g = c.id
        d == Dom(f, c.pt[1]) IN
-   /\ (d = "pole") <=> (out.sl = "err")
-   /\ (d = "offreal") <=> (out.sl = "valOrErr")
-   /\ out.sr = "val"
+   /\ (d = "pole") <=> (out.per.formula.sl = "err")
+   /\ (d = "offreal") <=> (out.per.formula.sl = "valOrErr")
+   /\ out.per.formula.sr = "val"
+\* history independence (part "order"): the reference is memoryless, remembering per (text, scope) or not at all refines
+\* it; part "order_flaw" checks the same law for a memo keyed by the text alone and has to fail
+OrderPer == LET x == OrderTexts[c.t] IN Per(x.f, x.args)
+LawOrder == c.kind = "order" =>
+   /\ LawMemoRefines(c.h, OrderPer, "none") /\ LawMemoRefines(c.h, OrderPer, "scope")
+   /\ \A h2 \in SeqsOver(Scopes, 2) : LawHistoryIndependent(c.h, h2, OrderPer)
+   /\ out.run = RefRun(c.h, OrderPer)
+LawOrderFlaw == c.kind = "order" => LawMemoRefines(c.h, OrderPer, "text")
 =============================================================================
